@@ -1731,6 +1731,8 @@ func (tr *FnTrans) doCall(st *BState, ci ssa.CallInstruction) Val {
 		tr.preserveLocals(st, site.Before, st.heap)
 		tr.assumeGlobalInvs(st.reach, st.heap)
 	}
+	st.heap = st.heap.child()
+	st.heap.asOf = st.ac
 	site.After = st.heap
 	st.heap = st.heap.child()
 	tr.applyDecoded(st, site)
